@@ -301,6 +301,26 @@ def case_hist(spec, workdir):
             if not np.array_equal(bd, bystander[1], equal_nan=bystander[1].dtype.kind == "f"):
                 probs.append(("bystander-destroyed", "step %d (%s in format %s): the unrelated %s tile at the same position was modified" % (step, ops[-1], fmt, bystander[0])))
                 break
+    # two stand-ins for ABSENT tiles obtained from one handle and alive at the same time (an image straddling a tile
+    # boundary, several missing children read as undefined): they are two buffers, not one
+    if mode != "RGB":
+        try:
+            h0 = handles[0]
+            pa, pb = Pos(3, 7, 7), Pos(3, 6, 7)
+            ba = h0.read_image(pa, default="masked", masked_mode=im, **fkw)
+            img2, a2 = rand_image(rng, mode, 256, 256, 0.0)
+            img2.update_into_maskable_buffer(ba, slice(0, 40), slice(0, 50), slice(100, 140), slice(60, 110))
+            keep = np.array(ba.asarray())
+            bb = h0.read_image(pb, default="masked", masked_mode=im, **fkw)
+            ma = "RGBA" if mode == "RGB" else mode
+            if not indep_undefined(np.asarray(bb.asarray()), ma) and ma in ("F32", "F64", "F16x3", "RGBA") or (ma in ("U8", "I16", "I32") and np.asarray(bb.asarray()).any()):
+                probs.append(("absent-stand-ins-aliased", "a second absent tile read as undefined is not all-undefined while the first one's stand-in is alive and modified"))
+            img2.update_into_maskable_buffer(bb, slice(100, 130), slice(0, 20), slice(0, 30), slice(200, 220))
+            now = np.array(ba.asarray())
+            if now.shape != keep.shape or not np.array_equal(now, keep, equal_nan=keep.dtype.kind == "f"):
+                probs.append(("absent-stand-ins-aliased", "reading / updating the stand-in of another absent tile changed the buffer obtained for the first one"))
+        except ValueError:
+            pass
     r = dict(counters={"histories": 1, "history_steps": len(ops), "pair_%s_%s" % (fmt, mode): 1, "histories_explicit_format": int(explicit), "histories_several_handles": int(len(handles) > 1)}, nontrivial=len(set(ops)) >= 3,
              sets=dict(fmt_mode=[[fmt, mode]]), sample=dict(spec=spec, prior=prior, ops=ops))
     if probs:
